@@ -67,7 +67,15 @@ def worker(job):
                     bad = (j - 1, e2)
                     break
             j, e2 = bad if bad else (None, e)
-            rec["fail"].append({**case, "kind": "export-or-run-raises", "step": j,
+            # the exported model, or onnxruntime's graph optimiser?  (same model, optimisations disabled, values compared)
+            suffix = ""
+            try:
+                _, outs0 = progs.build_and_run(prog, S, arrs, lres, [vals], optimise=False)
+                if all(ev is not None and progs.same_value(outs0[0][q], ev) for q, ev in enumerate(evals)):
+                    suffix = "-only-with-onnxruntime-graph-optimizations"
+            except Exception:
+                pass
+            rec["fail"].append({**case, "kind": "export-or-run-raises" + suffix, "step": j,
                                 "op": prog["steps"][j]["op"] if j is not None else None,
                                 "detail": f"{type(e2).__name__}: {str(e2)[:300]}"})
             continue
